@@ -155,6 +155,9 @@ class Dataset:
         if len(nb_occur_elements_in_rankings) == 0:
             raise EmptyDatasetException("No elements found in input rankings")
 
+        # the mappings are rebuilt from scratch (this method is also called after the dataset has been modified)
+        self._mapping_element_id = {}
+        self._mapping_id_element = {}
         id_element: int = 0
         for key, _ in nb_occur_elements_in_rankings.items():
             self._mapping_element_id[key] = id_element
